@@ -64,11 +64,12 @@ Definition monotone_on (c : circ) (pl : list nat) : bool :=
   forallb (fun e => nth (fst e) pl 0 <=? nth (snd e) pl 0) (circ_edges c).
 
 (* ---- replace filters ----------------------------------------------------------------------------------- *)
-(* _is_respecting(circuit, location, model, fully) *)
+(* _is_respecting(circuit, location, model, fully); the edge is accepted in either orientation (repo commit 4f34095) *)
 Definition is_respecting (m : mmodel) (b : circ) (loc : list nat) (fully : bool) : bool :=
   if existsb (fun o => (2 <=? length (oloc o)) && negb (gmem (og o) (mgates m))) (cops b) then false
   else if fully && existsb (fun o => (length (oloc o) <? 2) && negb (gmem (og o) (mgates m))) (cops b) then false
-  else if existsb (fun e => negb (raw_mem (nth (fst e) loc 0) (nth (snd e) loc 0) (edges_norm (medges m))))
+  else if existsb (fun e => negb (raw_mem (nth (fst e) loc 0) (nth (snd e) loc 0) (edges_norm (medges m)))
+                            && negb (raw_mem (nth (snd e) loc 0) (nth (fst e) loc 0) (edges_norm (medges m))))
                   (circ_edges b) then false
   else true.
 
